@@ -54,16 +54,22 @@ pub trait CodecLaws: BinarySerializer + BinaryDeserializer {
     proof fn roundtrip(&self, t: Tbl, suffix: Seq<u8>)
         requires
             self.ser_ok(t),
-            t.len() < i32::MAX,  // format limit: string ids are 31-bit
+            self.tbl_after(t).len() < i32::MAX,  // format limit: string ids are 31-bit
         ensures
             Self::dec(self.enc(t) + suffix, t) == (Dec::Ok { v: self.gv(), n: self.enc(t).len(), t: self.tbl_after(t) }),
+    ;
+
+    /// the string table only grows
+    proof fn tbl_mono(&self, t: Tbl)
+        ensures
+            self.tbl_after(t).len() >= t.len(),
     ;
 
     /// every strict prefix of an encoding is rejected
     proof fn truncated(&self, t: Tbl, k: int)
         requires
             self.ser_ok(t),
-            t.len() < i32::MAX,
+            self.tbl_after(t).len() < i32::MAX,
             0 <= k < self.enc(t).len(),
         ensures
             Self::dec(self.enc(t).take(k), t) is Err,
@@ -74,6 +80,7 @@ pub trait CodecLaws: BinarySerializer + BinaryDeserializer {
 
 //@lemma C01 C07 C08
 impl CodecLaws for bool {
+    proof fn tbl_mono(&self, t: Tbl) {  }
     proof fn roundtrip(&self, t: Tbl, suffix: Seq<u8>) {
         let s = self.enc(t) + suffix;
         assert(s[0] == self.enc(t)[0]);
@@ -84,6 +91,7 @@ impl CodecLaws for bool {
 
 //@lemma C01 C07
 impl CodecLaws for () {
+    proof fn tbl_mono(&self, t: Tbl) {  }
     proof fn roundtrip(&self, t: Tbl, suffix: Seq<u8>) {
     }
     proof fn truncated(&self, t: Tbl, k: int) {
@@ -92,6 +100,7 @@ impl CodecLaws for () {
 
 //@lemma C01 C07 C08
 impl<T: CodecLaws> CodecLaws for Option<T> {
+    proof fn tbl_mono(&self, t: Tbl) { match self { Some(v) => v.tbl_mono(t), None => {} } }
     proof fn roundtrip(&self, t: Tbl, suffix: Seq<u8>) {
         let s = self.enc(t) + suffix;
         match self {
@@ -121,6 +130,7 @@ impl<T: CodecLaws> CodecLaws for Option<T> {
 
 //@lemma C01 C07 C08
 impl<R: CodecLaws, E: CodecLaws> CodecLaws for core::result::Result<R, E> {
+    proof fn tbl_mono(&self, t: Tbl) { match self { Ok(v) => v.tbl_mono(t), Err(e) => e.tbl_mono(t) } }
     proof fn roundtrip(&self, t: Tbl, suffix: Seq<u8>) {
         let s = self.enc(t) + suffix;
         match self {
@@ -158,30 +168,35 @@ impl<R: CodecLaws, E: CodecLaws> CodecLaws for core::result::Result<R, E> {
 
 //@lemma C01 C07 C08
 impl<T: CodecLaws> CodecLaws for Box<T> {
+    proof fn tbl_mono(&self, t: Tbl) { (**self).tbl_mono(t); }
     proof fn roundtrip(&self, t: Tbl, suffix: Seq<u8>) { (**self).roundtrip(t, suffix); }
     proof fn truncated(&self, t: Tbl, k: int) { (**self).truncated(t, k); }
 }
 
 //@lemma C01 C07 C08
 impl<T: CodecLaws> CodecLaws for Rc<T> {
+    proof fn tbl_mono(&self, t: Tbl) { (**self).tbl_mono(t); }
     proof fn roundtrip(&self, t: Tbl, suffix: Seq<u8>) { (**self).roundtrip(t, suffix); }
     proof fn truncated(&self, t: Tbl, k: int) { (**self).truncated(t, k); }
 }
 
 //@lemma C01 C07 C08
 impl<T: CodecLaws> CodecLaws for Arc<T> {
+    proof fn tbl_mono(&self, t: Tbl) { (**self).tbl_mono(t); }
     proof fn roundtrip(&self, t: Tbl, suffix: Seq<u8>) { (**self).roundtrip(t, suffix); }
     proof fn truncated(&self, t: Tbl, k: int) { (**self).truncated(t, k); }
 }
 
 //@lemma C01 C07
 impl<T> CodecLaws for PhantomData<T> {
+    proof fn tbl_mono(&self, t: Tbl) {  }
     proof fn roundtrip(&self, t: Tbl, suffix: Seq<u8>) { }
     proof fn truncated(&self, t: Tbl, k: int) { }
 }
 
 //@lemma C01 C07 C08 C04
 impl CodecLaws for char {
+    proof fn tbl_mono(&self, t: Tbl) {  }
     proof fn roundtrip(&self, t: Tbl, suffix: Seq<u8>) {
         let v = (*self as u32) as nat;
         lemma_pow256();
@@ -235,6 +250,7 @@ pub proof fn lemma_dec_str_truncated(s: Seq<char>, k: int)
 
 //@lemma C01 C07 C08 C04 C09
 impl CodecLaws for String {
+    proof fn tbl_mono(&self, t: Tbl) {  }
     proof fn roundtrip(&self, t: Tbl, suffix: Seq<u8>) {
         lemma_dec_str_roundtrip(self@, suffix);
     }
@@ -245,6 +261,7 @@ impl CodecLaws for String {
 
 //@lemma C09 C01 C07 C08
 impl CodecLaws for DeduplicatedString {
+    proof fn tbl_mono(&self, t: Tbl) {  }
     /// first occurrence: exactly the plain string bytes, registered under the next id;
     /// repeat: zig-zag varint of minus its id, resolved through the table
     proof fn roundtrip(&self, t: Tbl, suffix: Seq<u8>) {
@@ -291,6 +308,7 @@ impl CodecLaws for DeduplicatedString {
 
 //@lemma C01 C07 C08 C12
 impl CodecLaws for Bytes {
+    proof fn tbl_mono(&self, t: Tbl) {  }
     proof fn roundtrip(&self, t: Tbl, suffix: Seq<u8>) {
         let b = self@;
         lemma_leb_roundtrip(b.len() as u32, b + suffix);
@@ -314,3 +332,5 @@ impl CodecLaws for Bytes {
         }
     }
 }
+
+//@include gen_laws_tuples.rs
